@@ -18,6 +18,7 @@ namespace verif {
 struct Registry {
 	std::unordered_map<const void *, uint64_t> live_obj;           // address -> serial
 	std::unordered_map<void *, size_t> live_blk;                   // block -> size
+	std::unordered_map<void *, int> blk_owner;                     // block -> id of the allocator instance that handed it out
 	uint64_t serial = 0, constructed = 0, destroyed = 0, allocs = 0, frees = 0, default_constructed = 0;
 	uint64_t copies = 0, moves = 0;
 	std::string error;                                             // first pending error
@@ -28,7 +29,7 @@ struct Registry {
 	}
 	void reset() {
 		for(auto &kv : live_blk) ::free(kv.first);
-		live_blk.clear(); live_obj.clear(); error.clear();
+		live_blk.clear(); blk_owner.clear(); live_obj.clear(); error.clear();
 		serial = constructed = destroyed = allocs = frees = default_constructed = copies = moves = 0;
 		fail_alloc_at = 0;
 	}
@@ -105,14 +106,14 @@ inline int payload(int x) { return x; }
 inline int payload(const Tracked &t) { return t.get(); }
 
 struct track_alloc {
-	int id = 0;      // allocators compare equal iff ids match; blocks remember nothing about it
+	int id = 0;      // identifies the pool this handle refers to: a block must be given back to the pool it came from
 	void *allocate(size_t n) {
 		auto &r = reg();
 		r.allocs++;
 		if(r.fail_alloc_at && r.allocs == r.fail_alloc_at) return nullptr;
 		void *p = ::malloc(n ? n : 1);
 		memset(p, 0xA5, n ? n : 1);
-		r.live_blk[p] = n;
+		r.live_blk[p] = n; r.blk_owner[p] = id;
 		return p;
 	}
 	void release(void *p, long n, bool sized) {
@@ -121,6 +122,8 @@ struct track_alloc {
 		auto it = r.live_blk.find(p);
 		if(it == r.live_blk.end()) { r.err("free of %p which is not a live block (double or foreign free)", p); return; }
 		if(sized && (size_t)n != it->second) r.err("deallocate(%p, %ld) of a block allocated with %ld bytes", p, n, (long)it->second);
+		if(r.blk_owner[p] != id) r.err("block %p was obtained from allocator #%ld but is given back to allocator #%ld", p, (long)r.blk_owner[p], (long)id);
+		r.blk_owner.erase(p);
 		memset(p, 0xDD, it->second ? it->second : 1);
 		r.live_blk.erase(it); r.frees++;
 		::free(p);
